@@ -1633,6 +1633,36 @@ func (fx *FnExec) observerHavoc(st *State) {
 		}
 	}
 	privs = append(privs, fx.notYetLeaked()...)
+	// an object handed to the callee (receiver or argument of the call being executed) is not private to us
+	if ci, ok := fx.curInstr.(ssa.CallInstruction); ok {
+		var argStrs []string
+		cc := ci.Common()
+		vs := append([]ssa.Value{}, cc.Args...)
+		if cc.IsInvoke() {
+			vs = append(vs, cc.Value)
+		}
+		for _, v := range vs {
+			if t, ok := fx.vals[v]; ok {
+				argStrs = append(argStrs, t.String())
+			} else if _, isC := v.(*ssa.Const); !isC {
+				argStrs = append(argStrs, "\x00any")
+			}
+		}
+		var keepP []*Term
+		for _, p := range privs {
+			ps := p.String()
+			handed := false
+			for _, a := range argStrs {
+				if a == "\x00any" || strings.Contains(a, ps) {
+					handed = true
+				}
+			}
+			if !handed {
+				keepP = append(keepP, p)
+			}
+		}
+		privs = keepP
+	}
 	sort.Slice(privs, func(i, j int) bool { return privs[i].String() < privs[j].String() })
 	for _, k := range names {
 		old := st.heap[k]
